@@ -776,7 +776,7 @@ fn runtime_program(rng: &mut Rng) -> String {
             let n = rng.range(80, 1500);
             match rng.below(4) {
                 // tail recursive: may run long (anything probabilistic per step needs many steps)
-                0 => format!("loop : (int -> int) = n => if n == 0 then 0 else loop (n - 1)\nloop {}\n", n * 3),
+                0 => format!("loop : (int -> int) = n => if n == 0 then 0 else loop (n - 1)\nloop {}\n", n * if rng.chance(1, 4) { 9 } else { 3 }),
                 // not tail recursive: the pending additions nest, so keep it shallow
                 1 => format!("sum : (int -> int) = n => if n == 0 then 0 else n + sum (n - 1)\nsum {}\n", n / 3 + 40),
                 2 => format!("fact : (int -> int) = n => if n == 0 then 1 else n * fact (n - 1)\nfact {}\n", n / 8 + 5),
